@@ -158,6 +158,16 @@ def run(ctx):
                 if low == 0 and v.ft == 32 and (after >> 28) != (before >> 28):
                     problems.append(f"FAT entry {c}: reserved bits changed {before:#x} -> {after:#x}")
                     break
+            # ... in EVERY copy of the table: the copies were identical and still are (C16-m8: all copies written in one piece, one byte short per
+            # copy on FAT12 tables whose serialisation is shorter than their sectors)
+            cp0 = [img[(v.rsvd + q * v.fatsz) * v.bps:(v.rsvd + (q + 1) * v.fatsz) * v.bps] for q in range(v.nfats)]
+            cp2 = [out2[(v.rsvd + q * v.fatsz) * v.bps:(v.rsvd + (q + 1) * v.fatsz) * v.bps] for q in range(v.nfats)]
+            if all(c == cp0[0] for c in cp0):
+                for q in range(1, v.nfats):
+                    if cp2[q] != cp2[0]:
+                        dq = next(j for j in range(len(cp2[0])) if cp2[q][j] != cp2[0][j])
+                        problems.append(f"FAT copy {q} differs from the first one at byte {dq} after the history")
+                        break
             t1, _ = v.tree()
             t2, _ = v2.tree()
             for p, t in t1.items():
